@@ -35,7 +35,7 @@ POINT_SETS = {
     "uturn": [[0, 0, 0], [25, 0, 0], [50, 0, 0], [75, 0, 0], [100, 0, 0], [100.3, 0.25, 0], [100, 0.5, 0], [75, 0.5, 0], [50, 0.5, 0], [25, 0.5, 0], [3, 0.5, 0]],
     "eight": [[0, 0, 0], [0.3, 0.1, 0], [0.5, 0.4, 0.1], [0.55, 0.45, 0.1], [1.5, 0.5, 0.2], [1.7, 1.2, 0.2], [1.75, 1.3, 0.3], [3.0, 1.5, 0.3]],
 }
-KINDS = ["discrete", "linear_eq", "linear_raw", "spline_eq", "spline_raw", "analytic", "line", "line_ext", "line_narrow", "circle"]
+KINDS = ["discrete", "linear_eq", "linear_raw", "spline_eq", "spline_raw", "analytic", "analytic_neg", "line", "line_ext", "line_narrow", "circle", "circle_neg"]
 
 
 def cases(tier, seed):
@@ -56,9 +56,9 @@ def cases(tier, seed):
     if tier == "quick":
         hist = [(a,) for a in "TRSM"] + [("T", b) for b in "RSM"] + [(b, "T") for b in "RSM"]
     for kind in KINDS:
-        if kind == "analytic":
+        if kind.startswith("analytic"):
             continue  # documented as not transformable
-        sets = ["-"] if kind in ("line", "line_ext", "line_narrow", "circle") else (list(POINT_SETS) if tier == "thorough" else ["uneven6", "zigzag5"])
+        sets = ["-"] if kind in ("line", "line_ext", "line_narrow", "circle", "circle_neg") else (list(POINT_SETS) if tier == "thorough" else ["uneven6", "zigzag5"])
         for ps in sets:
             if kind.startswith("spline") and ps == "three":
                 continue  # (a cubic spline needs four points; as in the first loop)
@@ -115,6 +115,9 @@ def make_curve0(case):
     R, t = FRAMES[fr]
     if kind == "analytic":
         return cb.AnalyticCurve(lambda s: R @ np.array([math.cos(s), math.sin(s), 0.3 * s]) + t, (0, 4.0)), None
+    if kind == "analytic_neg":
+        # bounds around parameter 0 (0 is a valid parameter inside the range, and a falsy value)
+        return cb.AnalyticCurve(lambda s: R @ np.array([math.cos(s), math.sin(s), 0.3 * s]) + t, (-1.5, 2.5)), None
     if kind.startswith("line"):
         # (the optional bounds extend the line beyond its two defining points, or clip it between them)
         bounds = {"line": (0, 1), "line_ext": (-1.0, 2.5), "line_narrow": (0.2, 0.8)}[kind]
@@ -123,6 +126,10 @@ def make_curve0(case):
         o = frame_apply(FRAMES[fr], [[0.5, 0.5, 0.2]])[0]
         rim = frame_apply(FRAMES[fr], [[1.7, 0.5, 0.2]])[0]
         return cb.CircleCurve(o, rim, R @ np.array([0, 0, 2.0]), (0, 5.0)), None
+    if kind == "circle_neg":
+        o = frame_apply(FRAMES[fr], [[0.5, 0.5, 0.2]])[0]
+        rim = frame_apply(FRAMES[fr], [[1.7, 0.5, 0.2]])[0]
+        return cb.CircleCurve(o, rim, R @ np.array([0, 0, 2.0]), (-1.0, 1.0)), None
     raise AssertionError(kind)
 
 
@@ -135,12 +142,14 @@ def run_case(case):
     curve, pts = make_curve(case)
     lo, hi = curve.bounds
     discrete = kind == "discrete"
-    analytic = kind in ("analytic", "circle") or kind.startswith("line")
+    analytic = kind in ("analytic", "analytic_neg", "circle", "circle_neg") or kind.startswith("line")
     rel = 1e-3 if analytic else 1e-9
     if discrete:
         grid = list(range(int(lo), int(hi) + 1))
     else:
         grid = [lo + (hi - lo) * i / 10 for i in range(11)]
+        if lo < 0 < hi:
+            grid = sorted(set(grid) | {0.0})  # parameter 0 inside the range: a valid parameter that is falsy
         if kind.startswith("linear") or kind.startswith("spline"):
             # the parameters of the defining points themselves (break points of the length polyline)
             grid = sorted(set(grid) | {float(t) for t in curve.function.params})
@@ -233,8 +242,13 @@ def run_case(case):
                 bad("closest-param-not-closest", f"returned parameter {t}: distance {d:.6g}; a sampled point of the curve is at distance {dmin:.6g}", query=qi, offset=mag)
     # 5. OnCurve edge written to a file
     if not discrete and kind != "line":
-        for ta, tb in ((0.1, 0.6), (0.75, 0.2)):
+        t_zero = (0.0 - lo) / (hi - lo)
+        for ta, tb in ((0.1, 0.6), (0.75, 0.2)) + (((t_zero, 0.9), (0.05, t_zero)) if lo < 0 < hi else ()):
             a, b = lo + (hi - lo) * ta, lo + (hi - lo) * tb
+            if ta == t_zero:
+                a = 0.0
+            if tb == t_zero:
+                b = 0.0
             pa, pb = np.array(curve.get_point(a)), np.array(curve.get_point(b))
             execs += 1
             try:
